@@ -200,8 +200,12 @@ func genVal(t *rapid.T) string {
 	return rapid.SampledFrom([]string{"x", "y", "z"}).Draw(t, "vlit")
 }
 
-func genSelector(t *rapid.T, neverStable bool) selector {
-	s := selector{Kind: rapid.SampledFrom(extraKinds).Draw(t, "skind")}
+func genSelector(t *rapid.T, neverStable, noComposed bool) selector {
+	kinds := extraKinds
+	if noComposed {
+		kinds = extraKinds[:2]
+	}
+	s := selector{Kind: rapid.SampledFrom(kinds).Draw(t, "skind")}
 	if s.Kind == "KindA" {
 		// composed resources of this XR are selectable by label only (their names are generated)
 		s.Labels = map[string]string{"crossplane.io/composite": xrName}
@@ -294,7 +298,12 @@ func genRound(t *rapid.T, si, nsteps int, neverStable bool, allowFail bool) roun
 	return rp
 }
 
-func genProgram() *rapid.Generator[program] {
+func genProgram() *rapid.Generator[program] { return genProgramOpt(false, false) }
+
+// genProgramOpt: noFail excludes every failing pipeline; noComposedSel keeps
+// requirements away from the composed kinds (used when the cache lags behind for
+// those kinds: extra resources are legitimately read from the cache).
+func genProgramOpt(noFail, noComposedSel bool) *rapid.Generator[program] {
 	return rapid.Custom(func(t *rapid.T) program {
 		p := program{Seed: rapid.Int64Range(1, 1<<40).Draw(t, "nameseed"), Reconciles: rapid.IntRange(1, 3).Draw(t, "reconciles"), XRConnRef: rapid.Bool().Draw(t, "xrconnref"), Secrets: map[string]map[string]string{}}
 		for _, k := range extraKinds[:2] {
@@ -315,7 +324,7 @@ func genProgram() *rapid.Generator[program] {
 		// Failing pipelines (fatal results, failing calls, absent credential Secrets,
 		// never-stabilising requirements) are confined to a third of the programs so
 		// that most programs reach later steps and later reconciles.
-		allowFail := rapid.IntRange(0, 2).Draw(t, "allowfail") == 0
+		allowFail := rapid.IntRange(0, 2).Draw(t, "allowfail") == 0 && !noFail
 		nsteps := rapid.IntRange(1, 4).Draw(t, "nsteps")
 		for si := 0; si < nsteps; si++ {
 			st := stepProg{Fn: fmt.Sprintf("fn-%d", rapid.IntRange(0, 2).Draw(t, "fn"))}
@@ -377,13 +386,16 @@ func genProgram() *rapid.Generator[program] {
 			nrounds := 1
 			if mode >= 4 {
 				nrounds = rapid.SampledFrom([]int{1, 1, 2, 2, 3, 3, 4, 5, 6}).Draw(t, "nrounds")
+				if noFail && nrounds > 5 {
+					nrounds = 5 // six different requirement sets in a row do not stabilise in time
+				}
 			}
 			for r := 0; r < nrounds; r++ {
 				rp := genRound(t, si, nsteps, mode == 9, allowFail)
 				if mode >= 4 {
 					rp.Reqs = map[string]selector{}
 					for i, n := 0, rapid.IntRange(1, 2).Draw(t, "nreqs"); i < n; i++ {
-						rp.Reqs[rapid.SampledFrom(reqKeys).Draw(t, "reqkey")] = genSelector(t, mode == 9 && i == 0)
+						rp.Reqs[rapid.SampledFrom(reqKeys).Draw(t, "reqkey")] = genSelector(t, mode == 9 && i == 0, noComposedSel)
 					}
 					if mode != 9 && r == nrounds-1 && rapid.IntRange(0, 3).Draw(t, "lastnoreqs") == 0 {
 						rp.Reqs = nil
@@ -676,6 +688,13 @@ type interp struct {
 	events   []expEvent
 	conds    []expCond
 
+	// run is the API run of the reconcile; firstCallAt is the number of API calls
+	// the reconcile had issued when the first function was called (-1: none).
+	run         *verifsim.Run
+	firstCallAt int
+	// forbid, if set, says why the contract allows no function call at all.
+	forbid string
+
 	calls      int
 	maxRounds  int
 	extraItems int
@@ -922,6 +941,13 @@ func (it *interp) enterStep() {
 func (it *interp) RunFunction(_ context.Context, name string, req *fnv1.RunFunctionRequest) (*fnv1.RunFunctionResponse, error) {
 	got := norm(req)
 	it.calls++
+	if it.calls == 1 && it.run != nil {
+		it.firstCallAt = it.run.N
+	}
+	if it.forbid != "" {
+		it.failf("call #%d (function %q) although %s; it was sent observed composed resources %v", it.calls, name, it.forbid, resKeys(got.GetObserved()))
+		return nil, errors.New("unexpected call")
+	}
 	if !it.started {
 		// The observed state is "fresh as of the time the pipeline was invoked".
 		it.started = true
@@ -1151,13 +1177,42 @@ var tokRE = regexp.MustCompile(`c04res-(\d+)-(\d+)-(\d+)-(\d+)\.`)
 // reconcile runs one reconcile under the interpreter and checks everything the
 // property promises about it. It returns the interpreter for evidence.
 func (w *world) reconcile(rec int, fail func(string, ...any)) *interp {
-	it := &interp{p: w.p, env: w.env, rec: rec}
+	return w.reconcileOpt(rec, false, fail)
+}
+
+// lagComposed is the informer cache of a controller that has not yet seen the
+// composed resources it has only just created; everything else is current.
+func lagComposed(k verifsim.Key) int {
+	if strings.HasPrefix(k.Kind, "Kind") {
+		return verifsim.LagHideNew
+	}
+	return 0
+}
+
+func resKeys(st *fnv1.State) []string {
+	out := make([]string, 0, len(st.GetResources()))
+	for k := range st.GetResources() {
+		out = append(out, k)
+	}
+	sort.Strings(out)
+	return out
+}
+
+// reconcileOpt is reconcile; with lag the reconciler reads through a cache that
+// hides just-created composed resources (uncached reads see the live store).
+func (w *world) reconcileOpt(rec int, lag bool, fail func(string, ...any)) *interp {
+	run := w.env.Sim.NewRun("xr-controller", nil)
+	it := &interp{p: w.p, env: w.env, rec: rec, run: run, firstCallAt: -1}
 	w.env.Runner = it
 	w.env.Recorder.Reset()
 	before := w.composedState()
-	run := w.env.Sim.NewRun("xr-controller", nil)
-	_, rerr := w.env.Reconcile(run, xrName)
-	ctx := fmt.Sprintf("reconcile %d of program %s", rec, verifkit.JSON(w.p))
+	var rerr error
+	if lag {
+		_, rerr = w.env.ReconcileWith(run.StaleClient(lagComposed), run.Client(), xrName)
+	} else {
+		_, rerr = w.env.Reconcile(run, xrName)
+	}
+	ctx := fmt.Sprintf("reconcile %d (cache lag %v) of program %s", rec, lag, verifkit.JSON(w.p))
 
 	if len(it.mismatch) > 0 {
 		fail("%s:\n%s", ctx, strings.Join(it.mismatch, "\n"))
@@ -1474,4 +1529,127 @@ func warningMentions(evs []verifenv.RecordedEvent, tok string) bool {
 		}
 	}
 	return false
+}
+
+// ---------------------------------------------------------------------------
+// observation under cache lag and read faults
+
+const ruleObserve = "observation: a non-failing program composes >=2 resources in reconcile 0; in reconcile 1 the reconciler's cache hides the composed resources written exactly once (LagHideNew) while uncached reads are live; first fault-free (the interpreter's observed state, built from the LIVE store, must be what every step receives), then every read of the observe phase (cached Get, fallback Get, connection Secret Gets, first step's credential Secret Gets) x {500, timeout, conflict, no-kind-match} is failed: an observation that cannot be completed allows NO RunFunctionRequest, and nothing may be applied; non-trivial = at least one cache miss whose fallback read was failed"
+
+var observeFaults = []string{"server", "timeout", "conflict", "nomatch"}
+
+func TestVerifC04ObserveFaults(t *testing.T) {
+	rec := verifkit.New(t, "C04", ruleObserve)
+	rapid.Check(t, func(t *rapid.T) {
+		p := genProgramOpt(true, true).Draw(t, "program")
+		// A last step that makes sure there is something to observe afterwards.
+		p.Steps = append(p.Steps, stepProg{Fn: "fn-last", Rounds: []roundProg{{Res: []resOp{
+			{Op: "set", Name: "r0", Val: "x", Conn: rapid.SampledFrom(append([]string{""}, connNames...)).Draw(t, "lastconn")},
+			{Op: "set", Name: "r1", Val: "$obs:r0"},
+		}}}})
+		p.Reconciles = 2
+		touch := map[string]bool{}
+		for _, n := range resNames {
+			touch[n] = rapid.IntRange(0, 3).Draw(t, "touch") == 0
+		}
+		rec.Eval()
+		observeFaultCase(&p, touch, rec, func(f string, a ...any) { t.Fatalf(f, a...) })
+	})
+}
+
+// observeFaultCase: see ruleObserve. touch lists the composed resources the
+// provider writes once more before reconcile 1 (the cache has seen those).
+func observeFaultCase(p *program, touch map[string]bool, rec *verifkit.Recorder, fail func(string, ...any)) {
+	w := newWorld(p, rec)
+	if it := w.reconcile(0, fail); it.outcome != "ok" {
+		fail("setup: reconcile 0 of a non-failing program ended %s", it.outcome)
+	}
+	w.provider(0)
+	pc := w.env.Sim.Client("provider")
+	for _, k := range w.env.Sim.AllKeys() {
+		o := w.env.Sim.Get(k)
+		if strings.HasPrefix(k.Kind, "Kind") && touch[verifsim.Annotations(o)[annName]] {
+			u := verifsim.U(o)
+			_ = unstructured.SetNestedField(u.Object, true, "status", "seen")
+			_ = pc.Status().Update(context.Background(), u)
+		}
+	}
+	base := w.env.Sim.Snapshot()
+	seed := p.Seed + 1
+
+	// Fault-free under cache lag: the fallback read must make the observation complete.
+	utilrand.Seed(seed)
+	probe := w.reconcileOpt(1, true, fail)
+	if probe.firstCallAt < 0 {
+		fail("setup: no function was called in the fault-free reconcile 1")
+	}
+	calls := append([]string(nil), probe.run.Calls...)
+	misses := 0
+	isComposedGet := func(i int) bool { return i >= 0 && i < len(calls) && strings.HasPrefix(calls[i], "get "+group+"/Kind") }
+	isFallback := func(i int) bool { return isComposedGet(i) && isComposedGet(i-1) && calls[i] == calls[i-1] }
+	for i := 0; i < probe.firstCallAt; i++ {
+		if isFallback(i) {
+			misses++
+		}
+	}
+	if rec != nil {
+		rec.Labelf("observe: cache misses in reconcile 1 = %d", min(misses, 4))
+		rec.Labelf("observe: observed composed (live) = %d", min(len(probe.obs.GetResources()), 4))
+	}
+
+	failedFallback := false
+	for k := 0; k < probe.firstCallAt; k++ {
+		class := ""
+		switch {
+		case isFallback(k):
+			class = "cache miss + live-read fault; requests sent: 0"
+		case isComposedGet(k):
+			class = "cached composed read fault; requests sent: 0"
+		case strings.HasPrefix(calls[k], "get /Secret/"+connNS+"/"):
+			class = "connection secret read fault; requests sent: 0"
+		case strings.HasPrefix(calls[k], "get /Secret/"+credsNS+"/"):
+			class = "credential secret read fault; requests sent: 0"
+		default:
+			continue // reads of the reconciler before the observation (XR, composition, revision)
+		}
+		for _, e := range observeFaults {
+			w.env.Sim.Restore(base)
+			utilrand.Seed(seed)
+			run := w.env.Sim.NewRun("xr-controller", map[int]verifsim.Fault{k: {Kind: verifsim.ErrBefore, Err: e}})
+			it := &interp{p: w.p, env: w.env, rec: 1, run: run, firstCallAt: -1,
+				forbid: fmt.Sprintf("the observation could not be completed: API call %d (%s) failed with an injected %s error", k, calls[k], e)}
+			w.env.Runner = it
+			w.env.Recorder.Reset()
+			before := w.composedState()
+			res, rerr := w.env.ReconcileWith(run.StaleClient(lagComposed), run.Client(), xrName)
+			ctx := fmt.Sprintf("reconcile 1 under cache lag with %s at API call %d (%s) of program %s", e, k, calls[k], verifkit.JSON(w.p))
+			if k >= len(run.Calls) || run.Calls[k] != calls[k] {
+				fail("%s: harness: the faulted reconcile diverged from the probe before the fault (%v vs %v)", ctx, run.Calls, calls)
+			}
+			if len(it.mismatch) > 0 || it.calls > 0 {
+				fail("%s: %d RunFunctionRequests were sent:\n%s", ctx, it.calls, strings.Join(it.mismatch, "\n"))
+			}
+			if !res.Requeue && rerr == nil {
+				fail("%s: the reconcile neither returned an error nor asked to be requeued (%+v)", ctx, res)
+			}
+			if after := w.composedState(); verifkit.JSON(before) != verifkit.JSON(after) {
+				fail("%s: composed resources changed although the observation failed:\n  before %s\n  after  %s", ctx, verifkit.JSON(before), verifkit.JSON(after))
+			}
+			if rec != nil {
+				rec.Label("observe: " + class)
+			}
+		}
+		failedFallback = failedFallback || isFallback(k)
+	}
+	w.env.Sim.Restore(base)
+	if rec != nil && failedFallback {
+		rec.NonTrivial("observe|"+verifkit.JSON(p)+verifkit.JSON(touch), func() any { return map[string]any{"observe_faults_program": p, "touched": touch} })
+	}
+}
+
+func TestVerifC04PinnedObserve(t *testing.T) {
+	p := program{Seed: 21, Reconciles: 2, ConnWrites: []string{"c0"}, XRConnRef: true, Secrets: map[string]map[string]string{"s0": {"k": "zero"}}, Steps: []stepProg{
+		{Fn: "fn-0", Creds: []credSpec{{Name: "cr0", Source: "Secret", Secret: "s0"}}, Rounds: []roundProg{{Res: []resOp{{Op: "set", Name: "r0", Val: "x", Conn: "c0"}, {Op: "set", Name: "r1", Val: "$obs:r0"}, {Op: "set", Name: "r2", Val: "y"}}, XRConn: map[string]string{"user": "u"}}}},
+	}}
+	observeFaultCase(&p, map[string]bool{"r2": true}, nil, func(f string, a ...any) { t.Fatalf(f, a...) })
 }
